@@ -314,6 +314,12 @@ func c09All(env *core.Env, c *fmtCase) core.Verdict {
 		contents[names[k]] = open
 		tree[names[k]] = open
 	}
+	// one file may be reached through a symbolic link (kept outside regex-assembly)
+	if k := rng.Intn(2 * len(names)); k < len(names) {
+		base := names[k][strings.LastIndex(names[k], "/")+1:]
+		tree["shared/"+base] = contents[names[k]]
+		tree[names[k]] = sut.SymlinkPrefix + strings.Repeat("../", strings.Count(names[k], "/")) + "shared/" + base
+	}
 	// hidden entries sort in front of the assembly files of their directory
 	tree["regex-assembly/.DS_Store"] = "\x00binary"
 	tree["regex-assembly/include/.gitkeep"] = ""
